@@ -797,7 +797,7 @@ class LibsModel:
         ty = it.ty
         if ty == 'ndarray':
             ax = it.axes[1:] if it.axes else None
-            out = it.only('geo', 'idx', 'mono', 'prov', 'store', 'dtype', 'taint', 'origin', 'counts_of', 'unique_of', 'positional_slice').w(ty='ndarray', axes=ax, view_of=it.store, deps=it.deps)
+            out = it.only('geo', 'idx', 'mono', 'prov', 'store', 'dtype', 'taint', 'origin', 'counts_of', 'unique_of', 'positional_slice', 'pair_width', 'minwidth').w(ty='ndarray', axes=ax, view_of=it.store, deps=it.deps)
             if it.colvals is not None and it.axes is not None and len(it.axes) == 2:
                 out = out.w(ty='tuple', elts=list(it.colvals), rowof=True)
             if ax == ():
@@ -809,7 +809,8 @@ class LibsModel:
             return it.only('idx', 'at', 'geo', 'mono', 'taint', 'col').w(ty='int', deps=it.deps)
         if ty == 'pairwise':
             el = self.iter_item(interp, st, it.of, node, stmt)
-            return AV(ty='tuple', elts=[el.w(pair_pos=0), el.w(pair_pos=1)], pairwise_of=it.of)
+            src = interp.sx(node.args[0]) if (isinstance(node, ast.Call) and node.args) else (it.of.sx if it.of is not None else None)
+            return AV(ty='tuple', elts=[el.w(pair_pos=0, pair_src=src, pair_seq=it.of), el.w(pair_pos=1, pair_src=src, pair_seq=it.of)], pairwise_of=it.of)
         if ty in ('SpaceGroup', 'PointGroup'):
             return AV(ty='SymmOp', opid='op')
         if ty == 'ndenumerate':
